@@ -129,7 +129,7 @@ inline void doStore(State &S, const Val &p, const Val &v, unsigned n, const Inst
 
 Val constToVal(State &S, const Constant *C);
 
-inline Val loadGlobalConst(State &S, const Region &R, Type *ty, i128 olo, i128 ohi, unsigned n) {
+inline Val loadGlobalConst(State &S, const Region &R, Type *ty, i128 olo, i128 ohi, unsigned n, const KnownBits *okb = nullptr) {
   const Constant *init = R.gv->getInitializer();
   if (olo == ohi) {
     Constant *c = ConstantFoldLoadFromConst(const_cast<Constant *>(init), ty, APInt(64, (uint64_t)olo), *DLp);
@@ -140,6 +140,7 @@ inline Val loadGlobalConst(State &S, const Region &R, Type *ty, i128 olo, i128 o
     std::bitset<256> cs;
     Type *i8 = Type::getInt8Ty(M->getContext());
     for (i128 o = olo; o <= ohi; o++) {
+      if (okb && !okb->isUnknown()) { APInt oa(64, (uint64_t)o); if (!(oa & okb->Zero).isZero() || (oa & okb->One) != okb->One) continue; }
       Constant *c = ConstantFoldLoadFromConst(const_cast<Constant *>(init), i8, APInt(64, (uint64_t)o), *DLp);
       if (auto *ci = dyn_cast_or_null<ConstantInt>(c)) cs.set((size_t)ci->getZExtValue()); else { cs.set(); break; }
     }
@@ -148,7 +149,13 @@ inline Val loadGlobalConst(State &S, const Region &R, Type *ty, i128 olo, i128 o
   return ty->isIntegerTy() ? Val::top(ty->getIntegerBitWidth()) : Val::unk();
 }
 
+inline Val doLoad1(State &S, const Val &p, Type *ty, const Instruction *I);
 inline Val doLoad(State &S, const Val &p, Type *ty, const Instruction *I) {
+  Val v = doLoad1(S, p, ty, I);
+  if (v.k == Val::INT) v.prov |= p.prov;
+  return v;
+}
+inline Val doLoad1(State &S, const Val &p, Type *ty, const Instruction *I) {
   unsigned n = (unsigned)DLp->getTypeStoreSize(ty);
   unsigned w = ty->isIntegerTy() ? ty->getIntegerBitWidth() : 64;
   auto dflt = [&]() { return ty->isIntegerTy() ? Val::top(w, P_OTHER) : Val::unk(); };
@@ -156,7 +163,7 @@ inline Val doLoad(State &S, const Val &p, Type *ty, const Instruction *I) {
   Region &R = S.regions[p.reg];
   if (R.kind == RK_ERRNO) return S.errnoSet ? S.errnoVal : Val::top(32);
   i128 olo, ohi; offsetBounds(S, p, olo, ohi);
-  if (R.gv && R.gv->isConstant() && R.gv->hasInitializer()) return loadGlobalConst(S, R, ty, olo, ohi, n);
+  if (R.gv && R.gv->isConstant() && R.gv->hasInitializer()) return loadGlobalConst(S, R, ty, olo, ohi, n, &p.kb);
   const RegionData &D = R.rd();
   auto cellAt = [&](i128 o) -> const ByteCell & { return (o >= 0 && o < (i128)D.bytes.size()) ? D.bytes[(size_t)o] : D.rest; };
   if (olo == ohi) {
